@@ -180,6 +180,44 @@ pub fn sweeps(ctx: &Ctx) -> Vec<Sweep> {
         }));
     }
 
+    // (a2') signature headers that record nothing: no entries at all / only the region entry / only entries that are no digests —
+    // the payload digest lives in the main header and must be judged all the same
+    {
+        use vlib::refhdr::{assemble, RawHeader};
+        let b6 = bases.clone();
+        const SIGS: [&str; 4] = ["no entries at all (not even a region)", "only the region entry", "only a size entry", "only an unknown entry"];
+        let pay = [D::Correct, D::from_digit(2), D::from_digit(3), D::Absent];
+        let n = (b6.len().min(5) * SIGS.len() * pay.len() * 3) as u64;
+        v.push(Sweep::new("bare-signature-headers", format!("five bases × signature header with {:?} × payload digest ∈ {{correct, wrong in the first / in the middle position, absent}} × payload digest algorithm ∈ {{8, 10 (no support), 1}}: the reference verdict computed from the bytes", SIGS), n, move |i, acc| {
+            let algo = [8u32, 10, 1][(i % 3) as usize];
+            let p = pay[(i / 3 % 4) as usize];
+            let sg = (i / 12 % 4) as usize;
+            let (name, parts) = &b6[(i / 48) as usize];
+            if p == D::Absent && algo != 8 {
+                return;
+            }
+            acc.evals += 1;
+            let (planned, _) = with_digests(parts, &DigestPlan { md5: D::Absent, sha1: D::Absent, sha256: D::Absent, payload: p, algo });
+            let Some(q) = split(&planned) else { return };
+            let sig = match sg {
+                0 => RawHeader::new(vec![], vec![]),
+                1 => RawHeader::layout_region(62, &[]),
+                2 => RawHeader::layout_region(62, &[(1000, Val::Int32(vec![(q.main_header().encode().len() + q.payload.len()) as u32]))]),
+                _ => RawHeader::layout_region(62, &[(999, Val::str("x"))]),
+            };
+            let (x, _) = assemble(&q.lead, &sig, 0, &q.main_header(), &q.payload);
+            let case = || json!({"base": name, "signature_header": SIGS[sg], "payload_digest": format!("{:?}", p), "payload_digest_algorithm": algo, "bytes_hex": if x.len() < 4096 { vlib::hex(&x) } else { String::new() }});
+            if let Some(vd) = judge("bare-signature-headers", &x, i, &case, acc) {
+                if vd != DigestVerdict::Ok {
+                    acc.nontrivial += 1;
+                }
+                if i % 17 == 0 {
+                    acc.sample(i, || json!({"base": name, "signature_header": SIGS[sg], "reference": format!("{:?}", vd)}));
+                }
+            }
+        }));
+    }
+
     // (a3) the value of one digest: every other digest one could compute from the package's own bytes, and the correct
     // value changed in two positions by the same amount
     {
